@@ -133,7 +133,7 @@ pub fn run(rec: &mut Recorder, cases: &str, thorough: bool, seed: u64) -> (u64, 
     let (mut n, mut nu) = (0u64, 0u64);
     for (ei, e) in exprs.iter().enumerate() {
         let d = depth(e);
-        let per = if d <= 1 || (thorough && d <= 2) { claims.len() } else if d <= 2 { 220 } else if thorough { 60 } else { 16 };
+        let per = if d <= 1 || (thorough && d <= 2) { claims.len() } else if d <= 2 { 220 } else if thorough { 8 } else { 16 };
         for k in 0..per {
             let ci = if per == claims.len() { k } else { rng.below(claims.len()) };
             let c = &claims[ci];
